@@ -163,7 +163,7 @@ PROPS = {
         ],
     },
     "C18": {
-        "lean_modules": ["TableauVerif.Props.C18", "TableauVerif.Props.C18Incr"],
+        "lean_modules": ["TableauVerif.Props.C18", "TableauVerif.Props.C18Incr", "TableauVerif.Props.C05Loops"],
         "oracles": ["c18.prep", "c18.incr", "c18.related"],
         "streams": [
             ("corr.protogen.prepareOutdir", 3000, 100000),
@@ -261,7 +261,7 @@ PROPS = {
         ],
     },
     "C05": {
-        "lean_modules": ["TableauVerif.Props.C05", "TableauVerif.Props.C16Pools"],
+        "lean_modules": ["TableauVerif.Props.C05", "TableauVerif.Props.C16Pools", "TableauVerif.Props.C05Loops"],
         "oracles": ["c05.typeinfos", "c05.gen", "c13.dry", "c11.merge", "c04.det"],
         "streams": [
             ("replay.C05.typeinfos", 2, 12, 1),
